@@ -9,7 +9,7 @@ import json
 import re
 
 from mc.explore import Stats, HarnessError, Product
-from mc import histories as H
+from mc import histories as H, modstate
 from ref import refversion, refzinc, refjson, neutral as N
 
 VERSIONS = ['none', '2.0', '3.0', '2.5', '3.0.0', '1.0', '4.0']
@@ -76,12 +76,42 @@ def reachable_v3(hs, g):
     for i, r in enumerate(g):
         for k, v in r.items():
             if is_v3(hs, v):
-                places.append('row')
+                places.append('row' if k in g.column else 'row-undeclared-tag')
     return sorted(set(places))
 
 
 PATHS = ['meta_set', 'meta_append', 'meta_extend', 'meta_add_item', 'meta_update', 'colmeta_set', 'colmeta_append', 'col_assign',
-         'append', 'insert', 'extend', 'iadd', 'setitem']
+         'append', 'insert', 'extend', 'iadd', 'setitem',
+         # rows may carry tags for which no column is declared (yet): they are part of the grid all the same
+         'append_undeclared', 'extend_undeclared', 'setitem_undeclared']
+
+
+# earlier activity of the same process (other grids, other versions): the gate of a grid must not depend on it.  Every
+# root starts from the import-time module state (mc/modstate.py), then performs the prelude, then builds its grid.
+PRELUDES = ['suffixed-versions-seen', 'three-group-versions-seen', 'other-grids-gated']
+
+
+def prelude(hs, name):
+    import warnings
+    with warnings.catch_warnings():
+        warnings.simplefilter('ignore')
+        if name == 'suffixed-versions-seen':
+            for v in ('2.0a', '2.0-beta', '3.0rc1', '1.0x'):
+                hs.Version.nearest(v)
+                H.outcome(lambda: hs.Grid(version=v, columns=[('c', [])]).append({'c': [1.0]}))
+        elif name == 'three-group-versions-seen':
+            for v in ('3.0.0', '2.0.0', '2.0.1', '3.0.0.0'):
+                hs.Version.nearest(v)
+                hs.Version(v) == hs.VER_3_0, hs.Version(v) < hs.VER_2_0, hs.VER_2_0 == hs.Version(v), hs.VER_3_0 > hs.Version(v)
+                H.outcome(lambda: hs.Grid(version=v, columns=[('c', [])]).append({'c': hs.NA}))
+        elif name == 'other-grids-gated':
+            for v in (None, '2.0', '3.0', '2.5', '4.0'):
+                kw = {} if v is None else {'version': v}
+                for val in ([1.0], hs.NA, {'a': 1.0}):
+                    H.outcome(lambda: hs.Grid(columns=[('c', [])], **kw).append({'c': val}))
+                    H.outcome(lambda: hs.dump_scalar(val, mode=hs.MODE_JSON, version=hs.Version(v or '2.0')))
+        else:
+            raise HarnessError(name)
 
 
 class GateSpec(H.Spec):
@@ -95,6 +125,8 @@ class GateSpec(H.Spec):
         roots = []
         for v in VERSIONS:
             roots.append(['plain', v])
+            for pre in PRELUDES:
+                roots.append(['plain-after', v, pre])
             for k in KINDS:
                 roots.append(['ctor-meta', v, k])
                 roots.append(['ctor-colmeta', v, k])
@@ -107,9 +139,12 @@ class GateSpec(H.Spec):
         hs = self.hs
         kind, v = root[0], root[1]
         kw = {} if v == 'none' else {'version': v}
-        model = {'v': v, 'refused_ctor': False}
+        model = {'v': v, 'refused_ctor': False, 'prelude': root[2] if kind == 'plain-after' else None}
+        modstate.restore()
+        if kind == 'plain-after':
+            prelude(hs, root[2])
         try:
-            if kind == 'plain':
+            if kind in ('plain', 'plain-after'):
                 g = hs.Grid(columns=[('c', []), ('d', [])], **kw)
             elif kind == 'ctor-meta':
                 g = hs.Grid(metadata={'x': mkval(hs, root[2])}, columns=[('c', []), ('d', [])], **kw)
@@ -137,9 +172,9 @@ class GateSpec(H.Spec):
     def ops(self, g, model):
         ops = []
         for p in PATHS:
-            if p == 'setitem' and len(g) == 0:
+            if p in ('setitem', 'setitem_undeclared') and len(g) == 0:
                 continue
-            if p in ('append', 'insert', 'extend', 'iadd') and len(g) >= 2:
+            if p in ('append', 'insert', 'extend', 'iadd', 'append_undeclared', 'extend_undeclared') and len(g) >= 2:
                 continue
             for k in KINDS:
                 ops.append((p, k))
@@ -175,6 +210,12 @@ class GateSpec(H.Spec):
             g += [{'d': val}]
         elif p == 'setitem':
             g[0] = {'c': val}
+        elif p == 'append_undeclared':
+            g.append({'c': 1.0, 'e': val})
+        elif p == 'extend_undeclared':
+            g.extend([{'c': 1.0}, {'e': val}])
+        elif p == 'setitem_undeclared':
+            g[0] = {'zz': val, 'd': 1.0}
         else:
             raise HarnessError(op)
 
@@ -196,7 +237,7 @@ class GateSpec(H.Spec):
                 # the grid now holds mislabelled data: the writers must still refuse it
                 self.writers(g, v, after, False, st, sig, case)
                 return False
-            if after != before and not (p == 'extend'):
+            if after != before and not (p in ('extend', 'extend_undeclared')):
                 st.fail('refused-store-left-3.0-only-value-in-grid', sig, case, {'op': list(op), 'reachable_3.0_data': after})
                 return False
         else:
@@ -266,6 +307,7 @@ class GateSpec(H.Spec):
 
     def writers(self, g, v, places, rep3, st, sig, case):
         hs = self.hs
+        places = [x for x in places if x != 'row-undeclared-tag']      # the writers emit declared columns only
         # both writers on every reached state
         for mode, name in ((hs.MODE_ZINC, 'zinc'), (hs.MODE_JSON, 'json')):
             got = H.outcome(hs.dump, g, mode=mode)
@@ -292,7 +334,7 @@ class GateSpec(H.Spec):
 
     def key(self, g, model):
         hs = self.hs
-        return (model['v'], str(g.version), tuple(reachable_v3(hs, g)), len(g), tuple(sorted(g.metadata.keys())),
+        return (model['v'], model['prelude'], str(g.version), tuple(reachable_v3(hs, g)), len(g), tuple(sorted(g.metadata.keys())),
                 tuple((c, tuple(sorted(m.keys())), type(m).__name__) for c, m in g.column.items()))
 
 
